@@ -255,6 +255,9 @@ class StepOps:
             idx = ev.eval(e.slice, env)
             if el is not None and isinstance(idx, int) and not isinstance(idx, bool) and -len(el) <= idx < len(el):
                 return el[idx]
+            if el is None and isinstance(base, tuple) and base and isinstance(base[0], tuple) and isinstance(idx, int) \
+                    and not isinstance(idx, bool) and -len(base) <= idx < len(base):
+                return base[idx]  # a tuple display of the model, e.g. a (key, item) pair
         return UNKNOWN
 
     def truth(self, v, env):
@@ -408,6 +411,15 @@ class StepOps:
                 result = None
         if result != "@none":
             vals[id(call)] = result
+            env["@callvals"] = vals
+        else:
+            # every other call is evaluated once, here at its own CFG node (a call may create an object of
+            # the model — an iterator with a position — that later evaluations must find again)
+            vals.pop(id(call), None)
+            env["@callvals"] = vals
+            v = ev.eval(call, env)
+            vals = dict(env.get("@callvals", {}))
+            vals[id(call)] = v
             env["@callvals"] = vals
 
 
